@@ -382,6 +382,28 @@ func realPurity(text string, tree *Tree) string {
 			}
 		}
 	}
+	// variables created without a value (automatic variables, Locate) and then given one in place: two calculators and
+	// two collections do not interfere, and the package-level null constant stays null
+	{
+		c1, c2 := calculator.NewExpressionCalculator(), calculator.NewExpressionCalculator()
+		if c1.SetExpression(text) == nil && c2.SetExpression(text) == nil && c1.DefaultVariables().Length() > 0 {
+			k := rnd.Intn(c1.DefaultVariables().Length())
+			v1 := c1.DefaultVariables().Get(k)
+			before2 := snapshotVars(c2.DefaultVariables().(*variables.VariableCollection))
+			v1.Value().SetAsInteger(41)
+			if !variants.Empty.IsNull() {
+				variants.Empty.Clear()
+				return "writing a value in place into an automatic variable of one calculator changed the package-level constant variants.Empty"
+			}
+			if after2 := snapshotVars(c2.DefaultVariables().(*variables.VariableCollection)); after2 != before2 {
+				return fmt.Sprintf("writing a value in place into an automatic variable of one calculator changed the variables of another calculator from %s to %s", before2, after2)
+			}
+			other := variables.NewVariableCollection()
+			if l := other.Locate("fresh_one"); l != nil && !l.Value().IsNull() {
+				return "a variable created by Locate starts with the value " + sx.Text(valSX(l.Value()))
+			}
+		}
+	}
 	if prog() != progBefore {
 		return "evaluation modified the compiled program or its constants"
 	}
